@@ -28,8 +28,8 @@ PROPS = {
     },
     'C02': {
         'streams': [S('C02', 1200, 25000)],
-        'explanation': 'theorems: Is is decided by identity / Is methods / mark equality over the visible nodes (iff); Is and IsAny cannot distinguish errors with the same erasure (hence: unchanged by one knowing hop for exact-kind errors, unchanged from the second hop on for every error); reference-side statement with the os-sentinel exemption (witness proved); opaque stand-ins carry the origin type marks; unknowing hops invisible later. Correspondence: Is against sentinels, nodes, rebuilt and perturbed copies before and after mixed hop sequences; Go relation: Is invariant (e transferred / both / only r)',
-        'not_yet_proved': ['first-hop mark preservation for kinds decoded to the opaque stand-ins (same gap as C01)'],
+        'explanation': 'theorems (first hop, every kind): the mark of every visible node (message + full type-mark sequence) is kept by k knowing hops for every error under text_ok and mark_ok, hence Is / IsAny against every reference that existed before the transfer, and symmetrically for a transferred reference; the side conditions are witnessed necessary. theorems: Is is decided by identity / Is methods / mark equality over the visible nodes (iff); Is and IsAny cannot distinguish errors with the same erasure (hence: unchanged by one knowing hop for exact-kind errors, unchanged from the second hop on for every error); reference-side statement with the os-sentinel exemption (witness proved); opaque stand-ins carry the origin type marks; unknowing hops invisible later. Correspondence: Is against sentinels, nodes, rebuilt and perturbed copies before and after mixed hop sequences; Go relation: Is invariant (e transferred / both / only r)',
+        'not_yet_proved': ['Is across the first hop for references accepted only by a USER type own Is method (cannot hold: the type is unknown on the other side; witness C02_user_is_method_lost), and for trees outside text_ok / mark_ok: decided by the correspondence only'],
         'assumptions': [ASSUME_UNIVERSE, 'the process evaluating Is can rebuild the types whose own Is method or Mark layer produced the match (DESIGN.md section 6 reading)'],
     },
     'C03': {
@@ -40,20 +40,20 @@ PROPS = {
     },
     'C04': {
         'streams': [S('C04', 1200, 25000)],
-        'explanation': 'theorems: exact re-encoding and confluence through processes that know none of the types, opaque nodes show the received text and keep names and details; refutation witnesses for the two recorded findings. Correspondence: shape / wire message / details at intermediaries with random knowledge subsets and at a later knowing process; Go relation: text, byte-exact re-encoding, names and details, reconstruction equal to direct receipt',
-        'not_yet_proved': ['confluence (later knowing process = direct receipt) for partially knowing intermediaries'],
+        'explanation': 'theorems: C04_confluence -- for ANY intermediary (any subset of known types) and any wire message a knowing receiver decodes what the intermediary forwards to the same error (erasure: text, marks, Is, encoding, details, accessors, renderings) as the original message; through any chain of intermediaries for errors without opaque nodes; the one side condition (a payload that is itself an error) is witnessed necessary. theorems: exact re-encoding and confluence through processes that know none of the types, opaque nodes show the received text and keep names and details; refutation witnesses for the two recorded findings. Correspondence: shape / wire message / details at intermediaries with random knowledge subsets and at a later knowing process; Go relation: text, byte-exact re-encoding, names and details, reconstruction equal to direct receipt',
+        'not_yet_proved': [],
         'assumptions': [ASSUME_UNIVERSE, 'regular strings'],
     },
     'C06': {
         'streams': [S('C06', 1500, 30000), S('C06R', 900, 20000)],
-        'explanation': 'Correspondence: redactable renderings byte-equal model vs implementation on hostile strings (local, decoded, opaque) and on regular strings with the plain renderings; Go relation: markers balanced / not nested / balanced per line; strip = plain; unsupported verbs refused',
-        'not_yet_proved': ['C06_wf over the buffer model for all byte strings', 'C06_congruent'],
+        'explanation': 'theorems (whole engine, Proofs/EngineWf.v): the redactable %v/%s rendering of EVERY error (all kinds, any depth, arbitrary bytes everywhere) is well-formed and balanced on every line when the redactable strings stored in the visited nodes are; %+v likewise under the decidable entry-glue condition; C06_engine_refuted_*: the conditions fail for errors built by the public API from strings with a truncated marker prefix at a line end -- the recorded finding marker-assembled-from-truncated-utf8, confirmed on the code. Correspondence: redactable renderings byte-equal model vs implementation on hostile strings (local, decoded, opaque) and on regular strings with the plain renderings; Go relation: markers balanced / not nested / balanced per line; strip = plain; unsupported verbs refused',
+        'not_yet_proved': ['congruence (strip = plain) beyond ASCII arguments; a syntactic condition on the INPUT strings implying the glue / stored-string hypotheses of the engine theorems (the recorded finding shows truncated marker prefixes at line ends must be excluded)'],
         'assumptions': [ASSUME_UNIVERSE],
     },
     'C07': {
         'streams': [S('C07', 1500, 30000), S('C07M', 900, 20000)],
-        'explanation': 'theorems: full non-interference: any two errors equal up to what is hidden behind barriers / in secondary positions (any context, any depth, inside multi-cause branches) agree on Is / IsAny (both sides) / As / HasType / every accessor / Error() / %v / marks / traversal; a Mark layer keeps only the mark; the hidden payload is re-decoded into the hidden position. Correspondence: accessors, Is, As; Go relation: the same context built over a different hidden payload gives the same cause analysis, locally and after hops',
-        'not_yet_proved': ['"hidden error visible in %+v and contributes safe details" (correspondence only)'],
+        'explanation': 'theorems: full non-interference: any two errors equal up to what is hidden behind barriers / in secondary positions (any context, any depth, inside multi-cause branches) agree on Is / IsAny (both sides) / As / HasType / every accessor / Error() / %v / marks / traversal; a Mark layer keeps only the mark; the hidden payload is re-decoded into the hidden position; the hidden error stays visible: its (indented) redactable %+v rendering is a substring of the %+v of the barrier / secondary layer, and its safe details are contained in that layer safe details (equations). Correspondence: accessors, Is, As; Go relation: the same context built over a different hidden payload gives the same cause analysis, locally and after hops',
+        'not_yet_proved': [],
         'assumptions': [ASSUME_UNIVERSE],
     },
     'C08': {
@@ -98,8 +98,8 @@ PROPS = {
     },
     'C15': {
         'streams': [S('C15', 720, 20000)],
-        'explanation': 'theorems: message = [source: ] + redacted verbose rendering + composition header; one exception per stack-bearing layer (one synthetic when none); frames of each exception = that layer reportable stack; module = domain; error-types extra; for decoded errors the re-parsed frames are the captured ones and the source prefix comes from the same first frame (printed-stack codec). Correspondence: message, exceptions (type, value, module, frames) and error-types extra of BuildSentryReport, model vs implementation, local and decoded; Go relation: message prefix, one composition line / type line per layer, exceptions = stack-bearing layers outermost first',
-        'not_yet_proved': ['the composition lines of the message (one per layer) are decided by the correspondence only'],
+        'explanation': 'theorems also: the message is EXACTLY source prefix + redacted verbose rendering + header + one composition line per layer (innermost first) + trailer; each line is newline-free exactly when the layer type name is; theorems: message = [source: ] + redacted verbose rendering + composition header; one exception per stack-bearing layer (one synthetic when none); frames of each exception = that layer reportable stack; module = domain; error-types extra; for decoded errors the re-parsed frames are the captured ones and the source prefix comes from the same first frame (printed-stack codec). Correspondence: message, exceptions (type, value, module, frames) and error-types extra of BuildSentryReport, model vs implementation, local and decoded; Go relation: message prefix, one composition line / type line per layer, exceptions = stack-bearing layers outermost first',
+        'not_yet_proved': [],
         'assumptions': [ASSUME_UNIVERSE, 'sentry-go event defaults not modelled'],
     },
     'C05': {
